@@ -7,7 +7,9 @@ package verifhook
 import (
 	"fmt"
 	"os"
+	"path/filepath"
 	"strconv"
+	"strings"
 	"sync"
 	"time"
 )
@@ -38,7 +40,48 @@ func Boundary(op string, path string) {
 			// passed their boundary are given time to complete, every other worker is held
 			// at its next boundary by mu (still locked here)
 			time.Sleep(150 * time.Millisecond)
+			waitForOpenWrites()
 			os.Exit(97)
 		}
+	}
+}
+
+// waitForOpenWrites returns when this process holds no regular file open for writing any more
+// (looked up in /proc/self/fdinfo; at most 5 s): a write of another worker that has truncated its
+// file is allowed to complete before the process exits, also on a busy machine.
+func waitForOpenWrites() {
+	deadline := time.Now().Add(5 * time.Second)
+	quiet := 0
+	for time.Now().Before(deadline) && quiet < 2 {
+		busy := false
+		ents, err := os.ReadDir("/proc/self/fd")
+		if err != nil {
+			return
+		}
+		for _, e := range ents {
+			target, err := os.Readlink(filepath.Join("/proc/self/fd", e.Name()))
+			if err != nil || !strings.HasPrefix(target, "/") || strings.HasPrefix(target, "/proc/") || strings.HasPrefix(target, "/dev/") {
+				continue
+			}
+			info, err := os.ReadFile(filepath.Join("/proc/self/fdinfo", e.Name()))
+			if err != nil {
+				continue
+			}
+			for _, l := range strings.Split(string(info), "\n") {
+				if strings.HasPrefix(l, "flags:") {
+					if fl, err := strconv.ParseInt(strings.TrimSpace(strings.TrimPrefix(l, "flags:")), 8, 64); err == nil && fl&3 != 0 {
+						if st, err := os.Stat(target); err == nil && st.Mode().IsRegular() {
+							busy = true
+						}
+					}
+				}
+			}
+		}
+		if busy {
+			quiet = 0
+		} else {
+			quiet++
+		}
+		time.Sleep(10 * time.Millisecond)
 	}
 }
